@@ -20,6 +20,28 @@ type FidCfg struct {
 	Msize   uint32 `json:"msize"`
 	NOFID   int    `json:"nofid"`
 	TwoConn bool   `json:"twoconn"`
+	// SlowPost: the implementation overrides request processing (SrvReqProcessOps) and its SrvReqRespond is slow: it
+	// parks before doing the post-processing.  It is released only when no reply has appeared, so a server that lets
+	// the reply out before the post-processing shows its next requests a table the history does not justify.
+	SlowPost bool `json:"slowpost"`
+}
+
+// OpsPS: SrvReqProcessOps whose SrvReqRespond parks before PostProcess (see FidCfg.SlowPost).
+type OpsPS struct{ *Ops }
+
+func (o OpsPS) SrvReqProcess(r *go9p.SrvReq) { r.Process() }
+func (o OpsPS) SrvReqRespond(r *go9p.SrvReq) {
+	o.C.park("cb_respond", r.Conn, r)
+	r.PostProcess()
+}
+
+// OpsPSA: the same with authentication support.
+type OpsPSA struct{ OpsA }
+
+func (o OpsPSA) SrvReqProcess(r *go9p.SrvReq) { r.Process() }
+func (o OpsPSA) SrvReqRespond(r *go9p.SrvReq) {
+	o.C.park("cb_respond", r.Conn, r)
+	r.PostProcess()
 }
 
 var implErr = regexp.MustCompile(`^E\d+$`)
@@ -32,6 +54,70 @@ type fidSession struct {
 	tag   uint16
 	pay   uint64
 	evpos int
+	rx    chan []byte // slow-post mode: what the session's reader goroutine has read from the connection
+}
+
+// pollFrame: the next complete reply frame already readable, without blocking (slow-post mode).
+func (s *fidSession) pollFrame() []byte {
+	if s.rx == nil {
+		s.rx = make(chan []byte, 1024)
+		go func(ch *ConnH, rx chan []byte) {
+			for {
+				buf := make([]byte, 1<<16)
+				n, err := ch.cli.Read(buf)
+				if n > 0 {
+					rx <- buf[:n]
+				}
+				if err != nil {
+					return
+				}
+			}
+		}(s.ch, s.rx)
+		s.c.Wait()
+	}
+	for {
+		select {
+		case b := <-s.rx:
+			s.ch.fr.Feed(b)
+			continue
+		default:
+		}
+		break
+	}
+	fr, err := s.ch.fr.Next()
+	if err != nil {
+		return nil
+	}
+	return fr
+}
+
+// releasePosts lets every parked SrvReqRespond go on, oldest first.
+func (s *fidSession) releasePosts() bool {
+	did := false
+	for i := 0; i < 64; i++ {
+		var p *Parked
+		for _, q := range s.c.Parked() {
+			if q.Point == "cb_respond" {
+				p = q
+				break
+			}
+		}
+		if p == nil {
+			break
+		}
+		s.c.mu.Lock()
+		for j, q := range s.c.parked {
+			if q == p {
+				s.c.parked = append(s.c.parked[:j], s.c.parked[j+1:]...)
+				break
+			}
+		}
+		s.c.mu.Unlock()
+		p.ch <- Cmd{}
+		s.c.Wait()
+		did = true
+	}
+	return did
 }
 
 func (s *fidSession) fid(v any) uint32 {
@@ -64,7 +150,8 @@ func (s *fidSession) count(class string) uint32 {
 }
 
 var modeOf = map[string]uint8{"OREAD": 0, "OWRITE": 1, "ORDWR": 2, "OEXEC": 3, "OREAD+OTRUNC": 16, "OWRITE+OTRUNC": 17, "ORDWR+ORCLOSE": 66}
-var permOf = map[string]uint32{"file": 0644, "dir": 0x80000000 | 0755, "symlink": 0x02000000 | 0777, "device": 0x00800000 | 0644}
+var permOf = map[string]uint32{"file": 0644, "dir": 0x80000000 | 0755, "symlink": 0x02000000 | 0777, "device": 0x00800000 | 0644,
+	"link": 0x01000000 | 0644, "namedpipe": 0x00200000 | 0644, "socket": 0x00100000 | 0644}
 
 // request builds the T-message of a FidRef action and scripts the implementation's answer.
 func (s *fidSession) request(a []any) *wire.Msg {
@@ -172,10 +259,27 @@ func (s *fidSession) do(a []any) map[string]any {
 		// Encode has no count field of its own for Tread other than Count: set by layout
 	}
 	s.evpos = len(c.Events)
-	c.SendRaw(s.ch, b, nil)
-	s.ch.Writing = true
-	r, _, err := c.RecvFrame(s.ch)
-	c.Wait()
+	var r *wire.Msg
+	var err error
+	if s.cfg.SlowPost {
+		s.pollFrame() // (starts the reader)
+		c.SendRaw(s.ch, b, nil)
+		c.Wait()
+		fr := s.pollFrame()
+		for fr == nil && s.releasePosts() {
+			fr = s.pollFrame()
+		}
+		if fr == nil {
+			err = fmt.Errorf("no reply")
+		} else {
+			r, err = wire.Decode(fr, s.ch.Dotu)
+		}
+	} else {
+		c.SendRaw(s.ch, b, nil)
+		s.ch.Writing = true
+		r, _, err = c.RecvFrame(s.ch)
+		c.Wait()
+	}
 	reply := "ok"
 	if err != nil || r == nil {
 		reply = "noreply"
@@ -245,6 +349,7 @@ func (s *fidSession) do(a []any) map[string]any {
 // TestFidRef executes TLC-generated histories of the reference machine FidRef sequentially on the
 // real server (scripted implementation, one request at a time) and records what was observed.
 func TestFidRef(t *testing.T) {
+	StartWatchdog()
 	bpath := os.Getenv("VERIF_BEHAVIOURS")
 	if bpath == "" {
 		t.Skip("no behaviours")
@@ -287,8 +392,13 @@ func TestFidRef(t *testing.T) {
 				}
 				srv := &go9p.Srv{Log: lg, Dotu: fc.Dotu, Msize: fc.Msize, Upool: twoUsers{}}
 				var ops any = c.Ops
-				if fc.HasAuth {
+				switch {
+				case fc.HasAuth && fc.SlowPost:
+					ops = OpsPSA{OpsA{c.Ops}}
+				case fc.HasAuth:
 					ops = OpsA{c.Ops}
+				case fc.SlowPost:
+					ops = OpsPS{c.Ops}
 				}
 				c.Start(srv, ops)
 				defer c.Stop()
@@ -315,6 +425,7 @@ func TestFidRef(t *testing.T) {
 						break
 					}
 				}
+				s.releasePosts()
 				if other != nil {
 					so := &fidSession{c: c, ch: other, cfg: fc, next: map[string]Cmd{}, tag: 100}
 					keep := s
